@@ -4,6 +4,7 @@ mod dynval;
 mod framing;
 mod record;
 mod rt;
+mod schema_glue;
 
 use rt::{Ctx, Tier};
 
